@@ -21,7 +21,7 @@ use crate::{
     props::c13::{extract, Nonces},
     refimpl::{Grp, Proof},
     runner::{guarded, setup, no_fixed, sub, CaseLog, PropertyDef, RunCtx, Sub, Tier},
-    tapx::{challenges, tapped},
+    tapx::{challenges, tapped_prover},
 };
 
 #[derive(Clone, Debug, Serialize, Deserialize, PartialEq, Eq, Hash)]
@@ -241,7 +241,7 @@ pub fn oracle_f(_ctx: &RunCtx, spec: &HedgeSpec, log: &mut CaseLog) -> Result<()
         _ => ((0..cfg.ext).map(g_id).collect(), None),
     };
     let prove = |r: &Run<F>| -> Result<(Vec<u8>, Nonces), String> {
-        let (p, ev) = tapped(|| guarded(|| F::prove(&mut r.ctx.transcript(), &r.st, &r.w, &mut spec.base.rng.make())));
+        let (p, ev) = tapped_prover(|| guarded(|| F::prove(&mut r.ctx.transcript(), &r.st, &r.w, &mut spec.base.rng.make())));
         let p = setup(p, "the prover refused or panicked on a valid witness (C01's subject)")?;
         // the construction is accepted by the library
         guarded(|| F::verify(&mut [r.ctx.transcript()], &[r.st.clone()], &[p.clone()], VerifyAction::VerifyOnly))?
@@ -445,7 +445,7 @@ pub fn public_oracle(_ctx: &RunCtx, spec: &HedgeSpec, log: &mut CaseLog) -> Resu
     let g_ids: Vec<u128> = (0..cfg.ext).map(g_id).collect();
     let start = t.transcript();
     let mut tr = start.clone();
-    let (p, ev) = tapped(|| guarded(|| F::prove(&mut tr, &t.st, &t.w, &mut spec.base.rng.make())));
+    let (p, ev) = tapped_prover(|| guarded(|| F::prove(&mut tr, &t.st, &t.w, &mut spec.base.rng.make())));
     let p = setup(p, "the prover refused or panicked on a valid witness (C01's subject)")?;
     let nonces = extract(&p.to_bytes(), &challenges(&ev), &g_ids, cfg.bits, None)?;
     // adversary
